@@ -346,4 +346,4 @@ def run(ctx):
 
 
 from .selftest import for_families as _ff  # noqa: E402
-selftest = _ff(['gate', 'lock'])
+selftest = _ff(['gate', 'lock', 'errflow'])
